@@ -1,4 +1,5 @@
 import PilotaModel.Lemmas.PbLimit
+import PilotaModel.Lemmas.PbLadder
 /-
   C10 — protobuf decoders are total and bounded on arbitrary bytes.
   Property theorems only; helper lemmas live in `PilotaModel/Lemmas/Pb*.lean`.
@@ -89,6 +90,14 @@ theorem group_recursion_limit (tag : Nat) (h1 : minTag ≤ tag) (h2 : tag ≤ ma
     skipField ctx .sgroup tag (groupBody tag n ++ rest) = if n < ctx then .ok rest else .err .depth :=
   skip_group_ladder tag h1 h2 n ctx rest
 
+/-- messages: `message Rec { optional Rec inner = 1; }` (`selfRec`) nested `n` deep is decoded with
+budget `ctx` exactly when `n ≤ ctx`; deeper nesting is refused with the recursion-limit error —
+with the top-level budget 100, nesting 100 decodes and nesting 101 is an error.  (For every other
+schema: `pb_roundtrip` needs `needSlots m ≤ 100`, and `recursion_limit` refuses at budget 0.) -/
+theorem message_recursion_limit (flag : Bool) (n ctx : Nat) (hy : okSlots selfRec flag (decls selfRec 0) (nestV n) = true) :
+    decodeIntoCtx selfRec ctx 0 (nestV 0) (encode selfRec flag 0 (nestV n)) = if n ≤ ctx then .ok (nestV n) else .err .depth :=
+  nest_limit flag n ctx hy
+
 /-- a length prefix larger than what remains is refused before the copy: `bytes::merge`,
 `merge_loop` (messages, packed runs, map entries) and `skip_field` return the error without
 reaching `copy_to_bytes` / `advance` (whose own precondition is therefore never violated, by
@@ -161,5 +170,6 @@ example : slicePre [0x80, 0x01] = true := by decide
 example : decodeVarint [0xff, 0xff, 0xff, 0xff, 0xff, 0xff, 0xff, 0xff, 0xff, 0x02] = .err .invalid := by rfl
 example : (FieldDecl.oneof [(2, .scalar .faststr), (4, .scalar .int32)]).tags.contains 4 = true := by decide
 example : minTag ≤ 7 ∧ 7 ≤ maxTag := by decide
+example : okSlots selfRec false (decls selfRec 0) (nestV 3) = true := by decide
 
 end Pilota.Props.C10
